@@ -23,13 +23,64 @@ from vlib import cfg, MV
 MANIFEST = dict(technique='TLA+ I-spec Sleep at atomic-operation granularity model-checked by TLC (safety + liveness under fairness); complete reachable graph of the REAL Sleeper/Waker under a gate scheduler (gopark/goready as scheduled steps) compared edge-for-edge with the TLC graph; the P-spec (deterministic monitor SleepMon over call/return/parked/IsAsserted observations) model-checked by TLC over the product with the complete real-code graph (every path) and over seeded random schedules',
                 text='All interleavings of one sleeper goroutine (AddWaker, blocking/non-blocking Fetch, Done) with 2-4 waker goroutines x 1-2 Assert/Clear operations are explored by TLC on the I-spec (NoLostWake, NoInvented, Coalesce, NBSound, AfterDone, FetchLive, DoneLive). The real pkg/sleep is driven through every reachable state/transition at atomic-operation granularity, including asserts landing between the decision to sleep and commitSleep and Done racing with asserts; its graph must equal the model graph (drift otherwise). The verdict comes from TLC checking the C19 monitor against every path of that real-code graph (GraphSleepProp) and against random schedules with up to 8 waker goroutines (TraceSleepProp); terminal states after Done re-attach every waker to a new sleeper through the public API; thorough adds a free-running stress with pre-emption injected at the hook points under the race detector.',
                 design='5 C19',
-                note='Trusted: runtime gopark/goready, sync/atomic, the gate scheduler. NBSound is checked at the strength "Assert returned, unconsumed, and no Assert of that waker still in flight": an Assert that finds the waker already asserted returns before the earlier, still running Assert has queued it (by design of the algorithm), so a stricter reading is refuted by model and code alike. Order of returned wakers is not checked. "Nobody touches the sleeper after Done" is observed through the verif accessor (lists empty, waitingG zero) and through the public API on the old/new sleeper in terminal states. Bounded: <=3 wakers, <=4 waker goroutines x <=2 ops exhaustively; 8 goroutines in random schedules. The free-running stress under the race detector (thorough tier) is exploration-grade: a race report there is reported as inconclusive, not as a C19 verdict.')
+                note='Trusted: runtime gopark/goready, sync/atomic, the gate scheduler. NBSound is checked literally (completed = some Assert call returned, unconsumed); the one shape in which the real code contradicts it is known finding F25 (an Assert that finds the waker already asserted returns before the Assert still in flight has queued it): a fixed gate-scheduler probe reproduces it on every run (KNOWN-FINDING line) and, only while it reproduces, the monitor tolerates exactly that shape (an Assert of the waker still in flight at the moment of the Fetch); without it the clause "no Assert of that waker in flight" is never relaxed. Order of returned wakers is not checked. "Nobody touches the sleeper after Done" is observed through the verif accessor (lists empty, waitingG zero) and through the public API on the old/new sleeper in terminal states. Bounded: <=3 wakers, <=4 waker goroutines x <=2 ops exhaustively; 8 goroutines in random schedules. The free-running stress under the race detector (thorough tier) is exploration-grade: a race report there is reported as inconclusive, not as a C19 verdict.')
 
 SPEC = ['sleep']
 INV = ['NoLostWake', 'NoInvented', 'Coalesce', 'NBSound', 'AfterDone', 'GhostOK', 'ParkOK', 'TypeOK', 'QueuedNotSlp']
-LIVE = ['FetchLive', 'DoneLive', 'AfterDoneStable']
+LIVE = ['FetchLive', 'DoneLive', 'AfterDoneStable', 'NBStrictOrF25']
 SLEEPER_START = {'StartAdd': 'StartAddWaker(0)', 'StartDone': 'StartDone(0)'}
-TCFG = cfg(spec='TSpec', constraint='HWMark', postcondition='Accepted')
+KF = 'F25'   # known finding: strict NBSound fails when an Assert returns early while another Assert of the waker is in flight
+PROBE_CFG = (1, (1, 1), 1, 1, True)
+# g1: Assert up to (not including) the enqueue; g2: Assert of the same waker returns; sleeper: non-blocking Fetch
+PROBE_MOVES = [dict(w=1, op='Assert'), dict(w=1, op=''), dict(w=1, op=''), dict(w=2, op='Assert'), dict(w=2, op=''),
+               dict(w=0, op='FetchNB'), dict(w=0, op='')]
+
+
+def tcfg(tol):
+    return cfg(spec='TSpec', constants=dict(TolerateF25=bool(tol)), constraint='HWMark', postcondition='Accepted')
+
+
+def drive(ctx, drv, conf, moves, name):
+    """Run one schedule on the real code; returns the P-level segment, or None if a move was not enabled."""
+    mp = os.path.join(ctx.work, name + '-moves.json')
+    vlib.write_json(mp, moves)
+    out = json.loads(ctx.run([drv, 'replay', conf, mp]).stdout)
+    c = conf.split(':')
+    seg = [dict(ev='reset', nw=int(c[0]), pre=c[4] == '1')]
+    for st in out['steps']:
+        if st.get('error'):
+            return None
+        seg.extend(st.get('events') or [])
+    return seg
+
+
+def probe_f25(ctx, drv):
+    """Drive the schedule of known finding F25 on the real code and validate it with the STRICT clause.
+    Returns True iff it reproduces in exactly the known shape and the finding is registered as known:
+    only then is the shape tolerated in the rest of this run."""
+    conf = dcfg(PROBE_CFG)
+    seg = drive(ctx, drv, conf, PROBE_MOVES, 'probe')
+    ctx.extra['F25_probe'] = 'schedule not drivable'
+    if seg is None:
+        return False
+    _a, rj = vlib.validate_segments(ctx, 'TraceSleepProp', tcfg(False), SPEC, [seg], name='probe-F25-strict', count=False)
+    if not rj:
+        ctx.extra['F25_probe'] = 'not reproduced (strict clause holds on the probe)'
+        return False
+    ln = rj[0][1]
+    info = dict(kind='gate-probe', config=conf, moves=PROBE_MOVES, events=seg[:ln + 1])
+    _a, rj2 = vlib.validate_segments(ctx, 'TraceSleepProp', tcfg(True), SPEC, [seg], name='probe-F25-shape', count=False)
+    if rj2:
+        ctx.extra['F25_probe'] = 'rejected outside the known shape'
+        ctx.violation('real pkg/sleep behaviour (F25 probe schedule) rejected by the C19 P-spec outside the known shape at event %d: %s' % (
+            rj2[0][1], json.dumps(seg[rj2[0][1]]) if rj2[0][1] < len(seg) else '?'), dict(info, events=seg[:rj2[0][1] + 1]))
+        return False
+    ctx.extra['F25_probe'] = 'reproduced'
+    ctx.sample(dict(kind='F25-probe', config=conf, events=seg))
+    ctx.violation('non-blocking Fetch reported nothing although an Assert of the attached waker had returned and was unconsumed '
+                  '(another Assert of the same waker still in flight, not yet queued): %s' % json.dumps(seg[ln]), info, key=KF)
+    return ctx.known(KF) is not None
+
 
 
 def mcfg(c, invariants=INV, properties=()):
@@ -84,7 +135,7 @@ def reset_ev(c, **kw):
     return d
 
 
-def pgraph(ctx, c, g, name, corrupt=False):
+def pgraph(ctx, c, g, name, tol, corrupt=False):
     """P-level verdict over the complete real-code graph g of configuration c: TLC explores the product
     of the graph with the monitor SleepMon (module GraphSleepProp); a TLC deadlock is an observation the
     P-spec rejects.  Returns None if every path is accepted, else dict(moves, events, rejected)."""
@@ -105,7 +156,7 @@ def pgraph(ctx, c, g, name, corrupt=False):
     if not done:
         raise vlib.Inconclusive('graph self-test: no successful Fetch in the real graph %s' % dcfg(c))
     text = ''.join(json.dumps(dict(out=out[k])) + '\n' for k in keys)
-    gc = cfg(spec='GSpec', constants=dict(GNW=c[0], GPre=bool(c[4]), GInit=idx[g['init']]))
+    gc = cfg(spec='GSpec', constants=dict(GNW=c[0], GPre=bool(c[4]), GInit=idx[g['init']], TolerateF25=bool(tol)))
     r = ctx.tlc('GraphSleepProp', gc, SPEC, name=name, files={'graph.ndjson': text}, nodeadlock=False, timeout=3000,
                 count=not corrupt)
     if r.ok:
@@ -133,7 +184,7 @@ def pgraph(ctx, c, g, name, corrupt=False):
     return dict(moves=moves, events=flat, rejected=flat[-1] if flat else None)
 
 
-def graph_part(ctx, drv, c, tag):
+def graph_part(ctx, drv, c, tag, tol):
     """Configuration c: model graph vs complete real-code graph (drift only), and the P-level verdict over
     every path of the real graph.  Returns (graph, nondeterminism message or None, rejected?)."""
     rc = ctx.tlc('MCSleep', mcfg(c), SPEC, name='Sleep-graph-' + tag, dump_dot=True, must_pass=True, timeout=3000)
@@ -149,7 +200,7 @@ def graph_part(ctx, drv, c, tag):
     ctx.extra.setdefault('real_graph', {})[tag] = dict(config=dcfg(c), states=len(g['states']), edges=len(g['edges']),
                                                        runs=g['runs'], steps=g['steps'])
     # ---- P-level: every path of the REAL graph against the P-spec
-    bad = pgraph(ctx, c, g, 'pgraph-' + tag)
+    bad = pgraph(ctx, c, g, 'pgraph-' + tag, tol)
     if bad is None:
         ctx.traces += len(g['edges'])
     else:
@@ -219,6 +270,11 @@ def selftest_traces(base):
 def run(ctx):
     drv = ctx.go_build('sleepd')
 
+    # ---- known finding F25: fixed probe on the real code, validated with the strict clause; its shape is
+    # ---- tolerated below only if it reproduces (and is registered as known)
+    tol = probe_f25(ctx, drv)
+    ctx.extra['F25_tolerated'] = tol
+
     # ---- E1: I-spec, every schedule of the small configurations; safety everywhere, liveness on the smaller ones
     e1 = ctx.pick([((2, (1, 2), 2, 2, True), False), ((1, (1, 1), 1, 1, False), True)],
                   [((2, (1, 1, 2), 2, 2, True), False), ((2, (1, 1, 2, 2), 1, 1, True), False), ((3, (1, 2, 3), 1, 1, True), False),
@@ -229,6 +285,13 @@ def run(ctx):
                     must_pass=True, timeout=3000)
         for a, (d_, t_) in r.cov.items():
             cov[a] = cov.get(a, 0) + t_
+    if ctx.thorough():
+        # the literal (strict) non-blocking clause on the I-spec: expected to fail exactly as F25 says
+        r = ctx.tlc('MCSleep', mcfg(PROBE_CFG, invariants=(), properties=['NBStrict']), SPEC, name='Sleep-F25', count=False, timeout=3000)
+        ctx.extra['F25_in_model'] = (not r.ok) and r.violated == 'NBStrict'
+        if ctx.extra['F25_in_model'] != (ctx.extra['F25_probe'] == 'reproduced'):
+            ctx.model_drift('known finding F25: I-spec %s the strict non-blocking clause, real code: probe %s' % (
+                'violates' if ctx.extra['F25_in_model'] else 'satisfies', ctx.extra['F25_probe']))
     zero = sorted(a for a, n in cov.items() if n == 0)
     if zero or not cov:
         raise vlib.Inconclusive('vacuity: actions never taken in the Sleep E1 runs: %s' % zero)
@@ -241,7 +304,7 @@ def run(ctx):
                        ('d', (1, (1,), 1, 1, False))])
     nondet, grej, small = [], False, None
     for tag, c in gconfs:
-        g, nd, bad = graph_part(ctx, drv, c, tag)
+        g, nd, bad = graph_part(ctx, drv, c, tag, tol)
         grej = grej or bad
         if nd:
             nondet.append(nd)
@@ -277,7 +340,7 @@ def run(ctx):
         while hi < len(segs) and (hi == lo or n + len(segs[hi]) <= 250000):
             n += len(segs[hi])
             hi += 1
-        acc, rj = vlib.validate_segments(ctx, 'TraceSleepProp', TCFG, SPEC, segs[lo:hi], name='ptrace-%d' % lo, timeout=3000)
+        acc, rj = vlib.validate_segments(ctx, 'TraceSleepProp', tcfg(tol), SPEC, segs[lo:hi], name='ptrace-%d' % lo, timeout=3000)
         ctx.traces += acc
         rej += [(lo + si, ln) for si, ln in rj]
         lo = hi
@@ -329,7 +392,7 @@ def run(ctx):
         raise vlib.Inconclusive('binding self-test: no random run with a successful Fetch')
     good, tests = selftest_traces(base)
     names = sorted(tests) if ctx.thorough() else ['corrupt-id']
-    a, rj = vlib.validate_segments(ctx, 'TraceSleepProp', TCFG, SPEC, [good] + [tests[n] for n in names], name='selftest',
+    a, rj = vlib.validate_segments(ctx, 'TraceSleepProp', tcfg(True), SPEC, [good] + [tests[n] for n in names], name='selftest',
                                    count=False, max_reruns=len(names) + 2)
     rejected = set(si for si, _ln in rj)
     if 0 in rejected:
@@ -337,32 +400,29 @@ def run(ctx):
     missed = [n for i, n in enumerate(names) if i + 1 not in rejected]
     if missed:
         raise vlib.Inconclusive('binding self-test failed: bad traces accepted: %s' % missed)
-    if pgraph(ctx, small[0], small[1], 'selftest-graph', corrupt=True) is None:
+    if pgraph(ctx, small[0], small[1], 'selftest-graph', True, corrupt=True) is None:
         raise vlib.Inconclusive('binding self-test failed: real graph with a corrupted Fetch result accepted')
     names = names + ['graph with a corrupted Fetch result']
     ctx.extra['binding_selftest'] = 'rejected: ' + ', '.join(names) + '; legal trace with a coalesced early-returning Assert accepted'
     ctx.assumptions += ['Go runtime gopark/goready and sync/atomic trusted; commitSleep+gopark is one step',
                         'hook granularity = one atomic operation per step (no coarser place); goroutine-local work rides with the preceding atomic operation',
-                        'NBSound strength: completed = an Assert returned, unconsumed, no Assert of that waker in flight',
+                        'NBSound: strict clause, known finding F25 tolerated only in its shape (an Assert of the waker in flight) and only while the probe reproduces',
                         'constants: E1 %s, graph comparison %s' % ([dcfg(c) for c, _l in e1], [dcfg(c) for _t, c in gconfs])]
 
 
 def replay(ctx, data):
-    """Re-run the schedule of a recorded violation on the real code and validate it again."""
+    """Re-run the schedule of a recorded violation / known finding on the real code and validate it again."""
     drv = ctx.go_build('sleepd')
     rp = data['replay']
     if 'moves' not in rp or 'config' not in rp or rp['config'].count(':') != 4 or 'r' in rp['config']:
-        raise vlib.Inconclusive('replay file has no explicit schedule (random runs: re-run the check with the recorded VERIF_SEED)')
-    mp = os.path.join(ctx.work, 'moves.json')
-    vlib.write_json(mp, rp['moves'])
-    out = json.loads(ctx.run([drv, 'replay', rp['config'], mp]).stdout)
-    c = rp['config'].split(':')
-    seg = [dict(ev='reset', nw=int(c[0]), pre=c[4] == '1')]
-    for st in out['steps']:
-        seg.extend(st.get('events') or [])
-    acc, rej = vlib.validate_segments(ctx, 'TraceSleepProp', TCFG, SPEC, [seg], name='replay')
+        raise vlib.Inconclusive('replay file has no explicit schedule (stress runs: re-run the check with the recorded VERIF_SEED)')
+    seg = drive(ctx, drv, rp['config'], rp['moves'], 'replay')
+    if seg is None:
+        raise vlib.Inconclusive('the recorded schedule cannot be driven on this tree (a move is not enabled)')
+    probe = rp.get('kind') == 'gate-probe'
+    acc, rej = vlib.validate_segments(ctx, 'TraceSleepProp', tcfg(not probe and ctx.known(KF) is not None), SPEC, [seg], name='replay')
     ctx.traces += acc
     for _si, ln in rej:
         ctx.violation('real pkg/sleep behaviour (replay, config %s) rejected by the C19 P-spec at event %d: %s' % (
             rp['config'], ln, json.dumps(seg[ln]) if ln < len(seg) else '?'),
-            dict(kind='replay', config=rp['config'], moves=rp['moves'], events=seg[:ln + 1]))
+            dict(kind=rp.get('kind', 'replay'), config=rp['config'], moves=rp['moves'], events=seg[:ln + 1]), key=KF if probe else None)
